@@ -519,8 +519,8 @@ def limits_case(rng, ctx, K, mon):
 
 # ---------------------------------------------------------------- driver ---
 def plan(tier, seed):
-    n = 8 if tier == 'quick' else 16
-    return [{'cases': 120 if tier == 'quick' else 20000, 'sweeps': 6 if tier == 'quick' else 800}
+    n = 16
+    return [{'cases': 300 if tier == 'quick' else 20000, 'sweeps': 15 if tier == 'quick' else 800}
             for _ in range(n)]
 
 
